@@ -420,12 +420,18 @@ def setFnArgsLayout (c : Config) : Config :=
     else c
   else c
 
-/-- config_type.rs:555-565 `set_hide_parse_errors`.  Literal: the value of `hide_parse_errors` is
-copied into `show_parse_errors` WITHOUT negation (line 562). -/
+/-- `!b` on a boolean value (anything else, unreachable for well-formed configs, is kept). -/
+def negBool : Val → Val
+  | .bool b => .bool (!b)
+  | v => v
+
+/-- config_type.rs:555-565 `set_hide_parse_errors`: `show_parse_errors = !hide_parse_errors`
+(since `fix: hide_parse_errors = true must turn show_parse_errors off`; the pinned tree copied the
+value without negating it). -/
 def setHideParseErrors (c : Config) : Config :=
   if wasSet c "hide_parse_errors" then
     if !wasSet c "show_parse_errors" then
-      setVal c "show_parse_errors" (getE c "hide_parse_errors").val
+      setVal c "show_parse_errors" (negBool (getE c "hide_parse_errors").val)
     else c
   else c
 
@@ -606,17 +612,19 @@ structure FS (α : Type) where
   read : ConfigFile α → Option (List (String × Val))
 
 inductive LoadErr where
-  | notFound      -- `--config-path` does not exist / holds no config file
-  | io            -- `canonicalize` of a missing directory, unreadable file
+  | notFound      -- `--config-path` does not exist / holds no config file; `canonicalize` of a
+                  -- missing start directory (`ErrorKind::NotFound` as well)
+  | io            -- unreadable file
   | invalidData   -- TOML / type error in the file
   | panic         -- `override_value` panicked in `apply_to`
   deriving DecidableEq, Repr
 
 /-- mod.rs:357-395 `resolve_project_file`: the ancestors of `dir`, nearest first, then the home
-directory, then `<config dir>/rustfmt`.  `fs::canonicalize` fails for a missing `dir`. -/
+directory, then `<config dir>/rustfmt`.  `fs::canonicalize` fails for a missing `dir`
+(`ErrorKind::NotFound`). -/
 def resolveProjectFile {α} [DecidableEq α] (fs : FS α) (dir : List α) :
     Except LoadErr (Option (ConfigFile α)) :=
-  if !dirExists fs.tree dir then .error .io
+  if !dirExists fs.tree dir then .error .notFound
   else
     let candidates := ancestors dir ++ fs.home.toList ++
       (fs.configDir.map (· ++ [fs.rustfmtName])).toList
@@ -743,10 +751,21 @@ def applyFlagCalls : List (Bool × String × Val) → Config → Option Config
     | some c' => applyFlagCalls r c'
     | none => none
 
-/-- bin/main.rs:684-734 `GetOptsOptions::apply_to`: the dedicated flags, then every `--config`
-pair through `override_value` in the map's iteration order. -/
+/-- The `max_width` pair(s) first, the other pairs behind in their order. -/
+def maxWidthFirst (l : List (String × Val)) : List (String × Val) :=
+  l.filter (fun kv => kv.1 == "max_width") ++ l.filter (fun kv => !(kv.1 == "max_width"))
+
+/-- The order in which `apply_to` feeds the `--config` pairs to `override_value`, given the
+iteration order `l` of the `HashMap`: since the repair of F3 (`fix: apply a --config max_width
+override before the other overrides`) the `max_width` pair comes first.  Which of the two shapes the
+source has is read off bin/main.rs by the translator (`inlineMaxWidthFirst`). -/
+def orderInline (l : List (String × Val)) : List (String × Val) :=
+  if inlineMaxWidthFirst then maxWidthFirst l else l
+
+/-- bin/main.rs:684-741 `GetOptsOptions::apply_to`: the dedicated flags, then every `--config`
+pair through `override_value`: `max_width` first, the rest in the map's iteration order. -/
 def applyTo {α} (o : CliOptions α) (c : Config) : Option Config :=
-  bindO (applyFlagCalls (flagCalls o) c) (applyInline o.inlineConfig)
+  bindO (applyFlagCalls (flagCalls o) c) (applyInline (orderInline o.inlineConfig))
 
 /-- mod.rs:518-547 `config_path`. -/
 def configPath {α} [DecidableEq α] (t : Tree α) (o : CliOptions α) :
@@ -801,6 +820,30 @@ def loadConfig {α} [DecidableEq α] (env : Env) (fs : FS α) (filePath : Option
         | some c' => .ok (c', p)
         | none => .error .panic
       | none => .ok (c, p)
+
+/-! ## Printing (`--print-config`) -/
+
+def i64Max : Nat := 2 ^ 63 - 1
+
+/-- mod.rs:210-223 `PartialConfig::to_toml` applied to `all_options()` (what `--print-config
+default|current` prints): every option except the generated list `tomlHidden`, in declaration
+order; `none` is the serialisation error of the `toml` crate for an integer above `i64::MAX`
+(F8: the four `usize::MAX` widths of `use_small_heuristics = "Off"`). -/
+def toToml (c : Config) : Option (List (String × Val)) :=
+  let l := (allOptions c).filter fun kv => !tomlHidden.contains kv.1
+  if l.all (fun kv => match kv.2 with | .nat n => n ≤ i64Max | _ => true) then some l else none
+
+/-- Print, then load the text as a config file (`from_toml`, no overrides): `none` when the
+configuration cannot be printed or the text is rejected. -/
+def roundTrip (env : Env) (c : Config) : Option Config :=
+  match toToml c with
+  | some l => fromToml env l none none none
+  | none => none
+
+/-- The printable option names (not in `tomlHidden`) on whose VALUE two configurations differ, in
+declaration order. -/
+def valueDiff (a b : Config) : List String :=
+  optionNames.filter fun k => !tomlHidden.contains k && decide ((getE a k).val ≠ (getE b k).val)
 
 /-! ## Operation sequences (for the driver's `cfg.apply` and the invariant theorems) -/
 
